@@ -312,6 +312,10 @@ shared_ptr<IDataArray> BlockHDF5::createDataArray(const std::string &name,
                                                   const Compression &compression) {
     // an element type without a file representation is refused before anything is created
     data_type_to_h5_filetype(data_type);
+    // so is a shape without dimensions: the data set could not be created (no chunking for 0-d data)
+    if (shape.size() == 0) {
+        throw InvalidRank("Cannot create a DataArray for 0-dimensional data");
+    }
 
     string id = util::createId();
     boost::optional<H5Group> g = data_array_group(true);
